@@ -182,10 +182,22 @@ pub fn gen_program(r: &mut Rng, cfg: &GenCfg) -> Vec<Op> {
             let n = gen_comment_len(r, cfg.comment_max);
             ops.push(Op::SetComment { c: Hex(gen_comment(r, n as usize)) });
         }
-        let name = gen_name(r, &used, cfg.long_names);
-        used.push(name.clone());
-        let o = gen_opts(r, &cfg.methods);
+        let mut name = gen_name(r, &used, cfg.long_names);
+        let mut o = gen_opts(r, &cfg.methods);
         let kind = r.below(20);
+        if cfg.misc_ops && r.chance(1, 12) && !name.contains('\0') && !name.contains('\\') && name.len() < 200 && (kind <= 1 || kind >= 9) {
+            // the path-taking calls: dress the name up with components the call must drop
+            let p = match r.below(5) {
+                0 => format!("/{name}"),
+                1 => format!("./{name}"),
+                2 => format!("../{name}"),
+                3 => format!("x/../{name}/."),
+                _ => format!("{name}/"),
+            };
+            name = path_components_joined(&p);
+            o.via_path = Some(p);
+        }
+        used.push(name.clone());
         match kind {
             0 | 1 if k_dir => ops.push(Op::AddDir { name, o }),
             2 if k_sym => ops.push(Op::AddSymlink { name, target: gen_name(r, &used, false), o }),
